@@ -11,8 +11,10 @@ import json
 import os
 import random
 import re
+import shutil
 import subprocess
 import sys
+import tempfile
 import time
 import traceback
 from dataclasses import dataclass, field
@@ -274,6 +276,53 @@ def jsonable(x, depth=0):
 # ----------------------------------------------------------------------------------------------
 # generic check procedure
 # ----------------------------------------------------------------------------------------------
+_COV = {"cov": None, "dir": None}
+
+
+def dump_child_coverage():
+    """called by a forked child of the harness right before os._exit: hands the lines it executed back to the parent"""
+    cov, d = _COV.get("cov"), _COV.get("dir")
+    if cov is None or d is None:
+        return
+    try:
+        cov.stop()
+        data = cov.get_data()
+        out = {f: sorted(data.lines(f) or []) for f in data.measured_files()}
+        with open(os.path.join(d, f"{os.getpid()}.json"), "w") as fh:
+            json.dump(out, fh)
+    except Exception:
+        pass
+
+
+def _collect_child_coverage():
+    d, side = _COV.get("dir"), {}
+    if d and os.path.isdir(d):
+        for n in os.listdir(d):
+            try:
+                for f, ls in json.load(open(os.path.join(d, n))).items():
+                    side.setdefault(f, set()).update(ls)
+            except Exception:
+                pass
+        shutil.rmtree(d, ignore_errors=True)
+    _COV["dir"] = None
+    return side
+
+
+def function_body_lines(path):
+    """line numbers that belong to the body of some function (not the def/decorator lines, not class/module level)"""
+    import ast
+    lines = set()
+    try:
+        tree = ast.parse(Path(path).read_text())
+    except Exception:
+        return lines
+    for n in ast.walk(tree):
+        if isinstance(n, (ast.FunctionDef, ast.AsyncFunctionDef)):
+            for st in n.body:
+                lines.update(range(st.lineno, (st.end_lineno or st.lineno) + 1))
+    return lines
+
+
 class PropertyCheck:
     """Subclass per property. Override the class attributes and `correspond`, `search`, `replay`."""
     pid = "C00"
@@ -371,7 +420,9 @@ class PropertyCheck:
             try:
                 import coverage as _coverage
                 cov = _coverage.Coverage(include=[str(REPO / f) for f in self.anchored if "*" not in f], branch=True, data_file=None)
+                cov.set_option("run:disable_warnings", ["no-data-collected"])
                 cov.start()
+                _COV["cov"], _COV["dir"] = cov, tempfile.mkdtemp(prefix="kdv_cov_")
             except Exception:
                 cov = None
         if drv_ok:
@@ -386,16 +437,24 @@ class PropertyCheck:
         if cov is not None:
             try:
                 cov.stop()
+                side = _collect_child_coverage()
                 cc = {}
                 for f in self.anchored:
                     if "*" in f:
                         continue
                     try:
                         _, stmts, _, missing, _ = cov.analysis2(str(REPO / f))
-                        cc[f] = {"statements": len(stmts), "executed": len(stmts) - len(missing), "missing_lines": missing[:40]}
+                        missing = [l for l in missing if l not in side.get(str(REPO / f), ())]
+                        body = function_body_lines(REPO / f)
+                        bstm = [l for l in stmts if l in body]
+                        bmis = [l for l in missing if l in body]
+                        cc[f] = {"statements": len(stmts), "executed": len(stmts) - len(missing),
+                                 "function_body_statements": len(bstm), "function_body_executed": len(bstm) - len(bmis),
+                                 "function_body_missing_lines": bmis[:40]}
                     except Exception as e:
                         cc[f] = {"error": str(e)[:80]}
                 self.code_coverage = cc
+                _COV["cov"] = None
             except Exception:
                 pass
         for d in corr.disagreements[:20]:
@@ -461,8 +520,10 @@ class PropertyCheck:
                 "technique": self.technique,
                 "leanchecker": getattr(self, "leanchecker", None),
                 "anchored_code_executed_by_correspondence": getattr(self, "code_coverage", None),
-                "anchored_code_executed_note": "statement coverage of the anchored repo files measured around the correspondence only: module-level "
-                                               "statements run at import time (before the measurement) and code run in child processes count as missing",
+                "anchored_code_executed_note": "statement coverage of the anchored repo files measured around the correspondence only; `function_body_*` "
+                                               "counts only statements inside function bodies (module/class-level statements run at import time, before the "
+                                               "measurement); forked children of the harness hand their executed lines back before they exit, code run in "
+                                               "other child processes (DataLoader workers, strace legs) counts as missing",
             },
             "assumptions": list(self.assumptions),
             "wall_s": round(wall, 2),
